@@ -1,5 +1,6 @@
 """C04 — analysis of arbitrary input is total, memory-safe and reports failure faithfully."""
 import json
+import random
 import zipfile
 
 from . import core
@@ -53,7 +54,7 @@ HOSTILE = [
 
 def shards(tier, seed):
     return ([{'kind': 'expr', 'i': i} for i in range(NSH)] + [{'kind': 'bytes', 'i': i} for i in range(8)] +
-            [{'kind': 'refs', 'i': i} for i in range(8)] + [{'kind': 'json', 'i': i} for i in range(8)])
+            [{'kind': 'refs', 'i': i} for i in range(8)] + [{'kind': 'json', 'i': i} for i in range(8)] + [{'kind': 'json-model', 'i': i} for i in range(4)] + [{'kind': 'json-oss', 'i': i} for i in range(4)])
 
 
 # ------------------------------------------------------------------ helpers
@@ -185,7 +186,7 @@ def mutate_json(rnd, doc):
             except (KeyError, IndexError, TypeError):
                 ok = False
                 break
-        if not ok:
+        if not ok or not isinstance(parent, (dict, list)):
             continue
         key = p[-1]
         try:
@@ -320,7 +321,47 @@ def gen_cases(desc, env):
                     'cstType': rnd.choice(['term', 'basic', 'function', 'axiom', 'structure', 'predicate', 'theorem', 'constant'])},
                    {'op': 'api.call', 'fn': 'roundtrip', 'doc': d}]
             cases.append(core.case(ops, kind='json', pristine=pristine, text=d if len(b) < 3000 else '<doc>'))
+    elif kind == 'json-model':
+        from . import p10
+        for k in range(30 if quick else 600):
+            producer = (p10.rich_model_case if k % 2 else p10.model_case)(rnd, 777000 + k)
+            cases.append(core.case(producer['ops'], kind='json-model', produce=True, mutations=rnd.randrange(1 << 30), n=4 if quick else 8))
+    elif kind == 'json-oss':
+        from . import p19
+        for k in range(20 if quick else 400):
+            producer = p19.history(rnd, 888000 + k, rnd.randint(10, 30))
+            ops = producer['ops'][:-1] + [{'op': 'oss.dump'}, {'op': 'oss.drop'}]
+            cases.append(core.case(ops, kind='json-oss', produce=True, mutations=rnd.randrange(1 << 30), n=4 if quick else 8))
     return cases
+
+
+def second_stage(cs, cr, rnd):
+    """documents produced by real code (first stage) are mutated and loaded back"""
+    out = []
+    kind = cs['meta']['kind']
+    if not cr.events or cr.death is not None:
+        return out
+    last = cr.events[-1] if kind == 'json-model' else (cr.events[-2] if len(cr.events) >= 2 else {})
+    doc = last.get('doc1') if kind == 'json-model' else (json.loads(last['doc']) if 'doc' in last else None)
+    if not isinstance(doc, dict):
+        return out
+    for k in range(cs['meta']['n']):
+        pristine = k == 0
+        d = doc if pristine else mutate_json(rnd, doc)
+        text = json.dumps(d, ensure_ascii=False)
+        b = text.encode('utf-8')
+        if not pristine and rnd.random() < 0.1:
+            b = mutate_text(rnd, text)[:200000]
+        if kind == 'json-model':
+            ops = [{'op': 'env.processor', 'mode': 'default'}, {'op': 'model.op', 'm': 'x', 'k': 'fromjson', 'doc': b.decode('utf-8', 'replace')},
+                   {'op': 'model.op', 'm': 'x', 'k': 'recalcall'}, {'op': 'model.snap', 'm': 'x', 'json': True},
+                   {'op': 'model.op', 'm': 'x', 'k': 'addelem', 'uid': {'idx': 0}, 'name': 'new'}, {'op': 'model.op', 'm': 'x', 'k': 'erase', 'uid': {'idx': 1}}]
+        else:
+            ops = [{'op': 'oss.load', 'doc': enc(b), 'fresh': True}, {'op': 'oss.op', 'k': 'executeall'}, {'op': 'oss.op', 'k': 'open', 'p': 0},
+                   {'op': 'oss.op', 'k': 'execute', 'p': 2, 'auto': True}, {'op': 'oss.op', 'k': 'operation', 'p1': 0, 'p2': 1}, {'op': 'oss.op', 'k': 'erase', 'p': 0},
+                   {'op': 'oss.op', 'k': 'erase', 'p': 3}, {'op': 'oss.dump'}, {'op': 'oss.drop'}]
+        out.append(core.case(ops, kind=kind, pristine=pristine, load=True, text=enc(b) if len(b) < 3000 else '<doc>'))
+    return out
 
 
 # ------------------------------------------------------------------ monitor
@@ -415,10 +456,12 @@ def judge(res, cs, cr):
                     b2 = b
                     limit_extra = 0
                 crit = [e for e in errors if e['isCritical']]
-                if (not r['parseResult']) and not crit:
-                    bad.append((f"api.{op['fn']}:fails-without-critical-error", f"{op['fn']}({str(op.get('text'))[:200]}) parseResult=false, errors {errors}"))
-                if r['parseResult'] and crit:
-                    bad.append((f"api.{op['fn']}:succeeds-with-critical-error", f"{op['fn']} parseResult=true with {crit}"))
+                # the analysis reports failure through parseResult=false (parse / type check) or valueClass=invalid (value check)
+                failed = (not r['parseResult']) or r.get('valueClass') == 'invalid'
+                if failed and not crit:
+                    bad.append((f"api.{op['fn']}:fails-without-critical-error", f"{op['fn']}({str(op.get('text'))[:200]}) parseResult={r['parseResult']} valueClass={r.get('valueClass')}, errors {errors}"))
+                if not failed and crit:
+                    bad.append((f"api.{op['fn']}:succeeds-with-critical-error", f"{op['fn']} parseResult=true valueClass={r.get('valueClass')} with {crit}"))
                 limit = ulen(b2, syn) + limit_extra
                 for e in errors:
                     if e['position'] < 0 or e['position'] > limit:
@@ -438,8 +481,58 @@ def judge(res, cs, cr):
                     'entries': [o['op'] for o in cs['ops'][1:]]}, limit=1)
 
 
+def judge_documents(res, cs, cr):
+    """model / operation-schema documents: first stage = producing history (only faults are judged here), second stage = load of a
+    (mutated) document followed by a few ordinary calls on the loaded object"""
+    kind = cs['meta']['kind']
+    if cr.death is not None:
+        if cr.death['kind'] == 'harness':
+            res.harness_error(cr.death['text'])
+            return
+        k = cr.death['op_index']
+        res.count('deaths')
+        stage = 'load' if cs['meta'].get('load') and k == (1 if kind == 'json-model' else 0) else ('post-load' if cs['meta'].get('load') else 'produce')
+        res.violation(f"{PROP}/fault/{kind}:{stage}:{cr.death['key']}", f"op {json.dumps(cs['ops'][k], ensure_ascii=False)[:300]}\n" + cr.death['text'][-2500:], cs)
+        return
+    if cr.hang:
+        res.count('hangs')
+        res.violation(f'{PROP}/hang@{kind}', 'a call on a loaded document exceeded the watchdog twice', cs)
+        return
+    if not cs['meta'].get('load'):
+        res.count('documents_produced')
+        return
+    load_at = 1 if kind == 'json-model' else 0
+    ev = cr.events[load_at]
+    res.cover('entry:' + cs['ops'][load_at]['op'] + (':fromjson' if kind == 'json-model' else ''))
+    res.count('judged')
+    if 'exc' in ev:
+        if ev['exc'].get('json') and not cs['meta'].get('pristine'):
+            res.count('json_format_errors')
+        else:
+            res.count('escaped_exceptions')
+            res.violation(f"{PROP}/report/exception:{ev['exc']['type']}@{kind}:load", f"loading {'the pristine' if cs['meta'].get('pristine') else 'a mutated'} document -> escaped {ev['exc']}; "
+                          f"document {str(cs['meta'].get('text'))[:600]}", cs)
+    else:
+        res.count('documents_loaded')
+        for op, e2 in zip(cs['ops'][load_at + 1:], cr.events[load_at + 1:]):
+            if 'exc' in e2:
+                res.count('post_load_exceptions')      # observed, not judged: outside the load call the property speaks about
+    res.judged(kind + ':' + json.dumps(cs['meta'].get('text'), ensure_ascii=False)[:2000], nontrivial=not cs['meta'].get('pristine'))
+    res.counters['judged'] -= 1
+    res.count('inputs')
+
+
 def run_shard(desc, env):
     res = core.ShardResult()
+    if desc['kind'] in ('json-model', 'json-oss'):
+        rnd = env.rng('c04-second', desc['kind'], desc['i'])
+        second = []
+        for cs, cr in env.execute(gen_cases(desc, env), chunk=10):
+            judge_documents(res, cs, cr)
+            second += second_stage(cs, cr, random.Random(cs['meta']['mutations']))
+        for cs, cr in env.execute(second, chunk=20):
+            judge_documents(res, cs, cr)
+        return res
     for cs, cr in env.execute(gen_cases(desc, env), chunk=40):
         judge(res, cs, cr)
     return res
@@ -448,5 +541,5 @@ def run_shard(desc, env):
 def replay(cs, env):
     res = core.ShardResult()
     for c, cr in env.execute([cs]):
-        judge(res, c, cr)
+        (judge_documents if c['meta']['kind'] in ('json-model', 'json-oss') else judge)(res, c, cr)
     return res
